@@ -200,9 +200,39 @@ def judge(case):
     return v
 
 
+@st.composite
+def many_points_st(draw):
+    case = draw(case_st(lmax=2))
+    case["shells"] = case["shells"][:2]
+    n = sum(nfunc(s) for s in case["shells"])
+    case["transform"] = None
+    case["gamma"], case["psd"] = draw(gen.sym_matrix(n, psd=True))
+    case["orders"] = case["orders"][:1]
+    case["grid"] = {"n": draw(st.sampled_from([1000, 1024, 1025, 2049])), "scale": draw(st.floats(0.3, 3.0, allow_nan=False)),
+                    "phase": [draw(st.floats(0.1, 3.0, allow_nan=False)) for _ in range(3)]}
+    case["points"] = []
+    return case
+
+
+def judge_many(case):
+    g = case["grid"]
+    i = np.arange(g["n"], dtype=float)
+    c = np.array(case["shells"][0]["coord"])
+    pts = c[None, :] + g["scale"] * np.stack([np.sin(i * g["phase"][0]), np.cos(i * g["phase"][1]), np.sin(i * g["phase"][2] + 1.0)], axis=1)
+    v = judge(dict(case, points=pts.tolist()))
+    v.classes.append("points-%d" % g["n"])
+    v.nontrivial = True
+    return v
+
+
+def shards_many(tier):
+    return [{"id": i, "n": 1, "cost": 30} for i in range(4 if tier == "quick" else 16)]
+
+
 def shards(tier):
     k, n = (16, 12) if tier == "quick" else (64, 150)
     return [{"id": i, "n": n} for i in range(k)]
 
 
-SUBCHECKS = [SubCheck("fields", judge, shards, strategy=lambda sh: case_st())]
+SUBCHECKS = [SubCheck("fields", judge, shards, strategy=lambda sh: case_st()),
+             SubCheck("many-points", judge_many, shards_many, strategy=lambda sh: many_points_st())]
